@@ -439,8 +439,91 @@ def _byte_term(fn, rhs, strv):
     return (j, shift, zext)
 
 
+def _has_loop(fn):
+    dom_ = fn.dominators()
+    for b in fn.blocks:
+        for s in fn.succs(b):
+            if s in dom_[b]:
+                return True
+    return False
+
+
+def tagwrite_loop(run, fx):
+    from .tagabs import TagAbs
+    fn = fx.one('gr_tag_to_str')
+    paths = TagAbs(fn, 'write').run()
+    n = 0
+    for st in paths:
+        if 'null' in st.notes and not st.stores:
+            continue
+        n += 1
+        offs = sorted(st.stores)
+        tagp = 'path%d%s' % (n, ' (remaining tag bytes zero)' if 'tag-remaining-zero' in st.notes else '')
+        for o in offs:
+            for v, loc in st.stores[o]:
+                inst = 'store@%d %s' % (o, tagp)
+                want = ('lane', ('b', 3 - o)) if 0 <= o <= 3 else None
+                if want is None:
+                    run.violated('TAGWRITE', inst, loc, 'gr_tag_to_str writes byte %d of the caller\'s buffer; the contract is exactly bytes 0..3' % o)
+                elif v != want and v != ('vec', (0, 0, 0, ('b', 3 - o))):
+                    run.violated('TAGWRITE', inst, loc, 'byte %d receives %s instead of tag byte %d (big-endian order)' % (o, v, 3 - o))
+                else:
+                    run.held('TAGWRITE', inst, loc, 'buf[%d] = tag byte %d' % (o, 3 - o))
+        missing = [o for o in range(4) if o not in st.stores]
+        if missing:
+            run.violated('TAGWRITE', 'coverage ' + tagp, fn.where(), 'on the path where %s bytes %s of the buffer are never written: the contract is that exactly the four tag '
+                         'bytes are stored, whatever their value (a zero-padded tag leaves stale bytes in the caller\'s buffer)'
+                         % ('the remaining tag bytes are zero' if 'tag-remaining-zero' in st.notes else 'this path is taken', missing))
+        else:
+            run.held('TAGWRITE', 'coverage ' + tagp, fn.where(), 'offsets written: %s' % offs)
+    if n == 0:
+        raise AnalysisBroken('gr_tag_to_str: no non-null abstract path')
+
+
+def tagread_loop(run, fx):
+    from .tagabs import TagAbs
+    fn = fx.one('gr_str_to_tag')
+    paths = TagAbs(fn, 'read').run()
+    for n, st in enumerate(paths):
+        k = st.end if st.end is not None else 4
+        tagp = 'strlen %s%d' % ('== ' if st.end is not None else '>= ', k)
+        for off, ok, loc in st.reads:
+            inst = 'read str[%d] | %s' % (off, tagp)
+            if ok:
+                run.held('TAGREAD', inst, loc, 'offsets below %d proved non-NUL' % off)
+            else:
+                run.violated('TAGREAD', inst, loc, 'str[%d] is read although not all of str[0..%d] are known to be non-NUL: reads beyond the terminator' % (off, off - 1))
+        ret = getattr(st, 'ret', None)
+        acc, flags = ({}, {})
+        if ret and ret[0] == 'acc':
+            acc, flags = ret[1], ret[2]
+        elif ret and ret[0] == 'int' and ret[1] == 0:
+            acc = {}
+        elif ret is None or ret[0] not in ('acc', 'int'):
+            run.broken('TAGREAD', 'result | %s' % tagp, 'returned value %s not classified' % (ret,), fn.where())
+            continue
+        want = {j: 24 - 8 * j for j in range(min(k, 4))}
+        inst = 'accumulate | %s' % tagp
+        if acc != want:
+            run.violated('TAGREAD', inst, fn.where(), 'for %s the result is assembled from %s, expected %s (byte j at bit 24-8j, first min(4,len) characters)' % (tagp, acc, want))
+        else:
+            run.held('TAGREAD', inst, fn.where(), 'bytes %s' % sorted(acc))
+        sx = sorted(j for j, z in flags.items() if not z)
+        inst = 'extension | %s' % tagp
+        if sx:
+            run.violated('TAGREAD', inst, fn.where(), 'bytes %s are widened from plain char without a zero-extending cast: values >= 0x80 sign-extend into the higher tag bytes' % sx)
+        elif acc:
+            run.held('TAGREAD', inst, fn.where(), 'all bytes zero-extended')
+
+
 def run(run):
     fx = run.facts('Q0')
-    tagwrite(run, fx)
-    tagread(run, fx)
+    if _has_loop(fx.one('gr_tag_to_str')):
+        tagwrite_loop(run, fx)
+    else:
+        tagwrite(run, fx)
+    if _has_loop(fx.one('gr_str_to_tag')):
+        tagread_loop(run, fx)
+    else:
+        tagread(run, fx)
     tagnorm.check(run, fx, 'TAGNORM')
